@@ -4,7 +4,13 @@ import glob, json, os, re
 ROOT = os.path.dirname(os.path.dirname(os.path.abspath(__file__)))
 rows = []
 stats = {"missed": 0, "wrong": 0, "other": 0, "n": 0}
-for d in sorted(glob.glob(os.path.join(ROOT, "seeded", "*"))):
+def _natural(d):
+  lab = os.path.basename(d)
+  m = re.match(r"(C\d+)-seed(\d+)$", lab)
+  return (m.group(1), int(m.group(2))) if m else (lab, 0)
+
+
+for d in sorted(glob.glob(os.path.join(ROOT, "seeded", "*")), key=_natural):
   lab = os.path.basename(d)
   ev = json.load(open(os.path.join(d, "eval.json")))
   first = ev.get("reported_by_at_first_evaluation", "")
